@@ -26,8 +26,12 @@ func vScLess(h *batchHeap, i, j heapIndex, limbSize int) bool {
 	return lt
 }
 
-// fresh heap state: n scalars with limbs < 2^BitsPerLimb (zero above limbSize), heap[] a permutation of 0..n-1
+// fresh heap state: n scalars with symbolic limbs < 2^BitsPerLimb (zero above limbSize); heap[] is one of three
+// fixed permutations without fixed points (so that confusing a heap position with the entry it refers to
+// shows), selected by a case split.  Symbolic permutations make the sift obligations intractable for n >= 7;
+// the code treats indices opaquely, it only swaps them.
 func vFreshHeap(h *batchHeap, n, limbSize int) {
+	perm := vCase(0, 2)
 	for i := 0; i < n; i++ {
 		for l := 0; l < modm.LimbSize; l++ {
 			if l <= limbSize {
@@ -35,13 +39,17 @@ func vFreshHeap(h *batchHeap, n, limbSize int) {
 				vAssume(h.scalars[i][l] < 1<<modm.BitsPerLimb)
 			}
 		}
-		h.heap[i] = heapIndex(vInt("h" + vItoa(i)))
-		vAssume(h.heap[i] >= 0 && int(h.heap[i]) < n)
-	}
-	for i := 0; i < n; i++ {
-		for j := i + 1; j < n; j++ {
-			vAssume(h.heap[i] != h.heap[j])
+		switch perm {
+		case 0:
+			h.heap[i] = heapIndex((i + 1) % n) // rotation
+		case 1:
+			h.heap[i] = heapIndex(n - 1 - i) // reversal (n odd: the middle is fixed, moved below)
+		case 2:
+			h.heap[i] = heapIndex((i + n/2) % n)
 		}
+	}
+	if perm == 1 {
+		h.heap[n/2], h.heap[0] = h.heap[0], h.heap[n/2]
 	}
 	h.size = n
 }
@@ -86,11 +94,11 @@ func vh_C17_heapUpdatedRoot() {
 func vh_C17_heapInsertNext() {
 	n := vHeapN()
 	var h batchHeap
-	vFreshHeap(&h, n, modm.LimbSize-1)
-	// entries 0..n-2 form a heap over indices 0..n-2; entry n-1 is the one to be inserted
-	h.size = n - 1
-	for k := 0; k < n-1; k++ {
-		vAssume(int(h.heap[k]) < n-1)
+	vFreshHeap(&h, n-1, modm.LimbSize-1)
+	// entries 0..n-2 form a heap over indices 0..n-2; scalar n-1 is the one to be inserted
+	for l := 0; l < modm.LimbSize; l++ {
+		h.scalars[n-1][l] = vFreshLimb("new_" + vItoa(l))
+		vAssume(h.scalars[n-1][l] < 1<<modm.BitsPerLimb)
 	}
 	for k := 1; k < n-1; k++ {
 		vAssume(vHeapOrderAt(&h, k, modm.LimbSize-1))
